@@ -3,7 +3,7 @@
    (outside the known classes of Repo/Inv.v) and copy / move / remove / untrack (outside --name-only
    destination collisions). *)
 From Coq Require Import List Bool NArith Lia.
-From XV Require Import Base.Amap Base.Bytes Repo.Model Repo.Proofs Repo.Inv Glob.Match Repo.Ext Repo.ExtProofs Repo.ExtShare.
+From XV Require Import Base.Amap Base.Bytes Repo.Model Repo.Proofs Repo.Inv Repo.Fix Repo.FixProofs Glob.Match Repo.Ext Repo.ExtProofs Repo.ExtShare.
 Import ListNotations.
 
 (* ---- the invariants of Repo/Inv.v give the hypotheses of Repo/ExtProofs.v ---------------------------------------- *)
@@ -104,9 +104,16 @@ Qed.
 
 (* the step is outside the known classes: Repo/Inv.v's monitor for track / carry-in / recheck; for copy, pairwise
    distinct destinations (two sources with one --name-only destination create two entities with one path) *)
+(* every value of the switches of Repo/Fix.v: the step of a core item must be clean whichever repairs are in the tree *)
+Definition all_fixes : list fixes :=
+  flat_map (fun a => flat_map (fun b => flat_map (fun c => map (fun d => {| fixed_P44 := a; fixed_P41 := b; fixed_P49 := c; fixed_P43 := d |})
+                                                              [false; true]) [false; true]) [false; true]) [false; true].
+Lemma all_fixes_complete fx : In fx all_fixes.
+Proof. destruct fx as [[|] [|] [|] [|]]; cbn; tauto. Qed.
+
 Definition xclean (r : xrepo) (it : xitem) : bool :=
   match it with
-  | XBase i => negb (mon_item unclean (base r) i)
+  | XBase i => negb (mon_item unclean (base r) i) && forallb (fun fx => negb (mon_item_x fx (unclean_x fx) (base r) i)) all_fixes
   | XCopy o s d => match copy_plan o s d r with CPlanned plan _ => nodupb (map cd_path plan) | CRefused _ => true end
   | _ => true
   end.
@@ -141,8 +148,10 @@ Lemma xstep_inv fl r it : INV (base r) -> xclean r it = true -> INV (base (fst (
 Proof.
   intros [F R] C. pose proof (FI_wf_fs _ F) as Wf. pose proof (RI_wf_recs _ R) as Wr.
   destruct it as [i|o s d|o s d|o ts|ts]; cbn [do_xitem xclean] in *.
-  - apply negb_true_iff in C. destruct (item_spec (base r) i (conj F R) C) as (I & _).
-    destruct (do_item (base r) i) as [b oc]. exact I.
+  - apply andb_true_iff in C. destruct C as [_ C].
+    pose proof (proj1 (forallb_forall _ _) C (core fl) (all_fixes_complete (core fl))) as Cx. apply negb_true_iff in Cx.
+    destruct (item_spec_x (core fl) (base r) i (conj F R) Cx) as (I & _).
+    destruct (do_item_x (core fl) (base r) i) as [b oc]. exact I.
   - unfold copy_cmd3. destruct (copy_plan o s d r) as [oc|plan sk] eqn:PL; [split; auto|].
     apply nodupb_spec in C.
     pose proof (fun c I => proj1 (copy_plan_pairs _ _ _ _ _ _ PL c I)) as A.
